@@ -301,6 +301,28 @@ def gen_case(r, version):
                 text = gen.choice(r, ["E\t%s\t%s+\t%s+\t0\t1\t0\t1\t*" % (f_, a, f_), "G\t%s\t%s-\t%s+\t5\t*" % (f_, f_, a),
                                       "E\t%s\t%s+\t%s-\t0\t1\t0\t1\t*" % (f_, f_, f_)])
             ops.append(["collide_add", text, "self_mention"])
+        elif x < 0.27 and version == "gfa2":
+            # an item added to / taken from a group through the item-editing methods (by identifier or by line):
+            # the mention must follow later renames like any other
+            op = H.item_edit(st_, r)
+            if op is not None:
+                ops.append(op)
+        elif x < 0.3 and [x_ for x_ in st_.model.recs if M.name_of(x_) is not None and x_.rt != "S"] and st_.model.segment_names():
+            # a line that mentions, where a segment is expected, the identifier of a line of another type; then the
+            # segment line with that identifier
+            other = M.name_of(gen.choice(r, [x_ for x_ in st_.model.recs if M.name_of(x_) is not None and x_.rt != "S"]))
+            a = gen.choice(r, st_.model.segment_names())
+            if version == "gfa1":
+                if "," in other or "," in a:
+                    continue
+                text = gen.choice(r, ["L\t%s\t+\t%s\t-\t*" % (a, other), "C\t%s\t+\t%s\t-\t0\t*" % (other, a), "P\tzq8\t%s+,%s+\t*" % (a, other)])
+                seg = "S\t%s\t*" % other
+            else:
+                text = gen.choice(r, ["E\t*\t%s+\t%s+\t0\t1\t0\t1\t*" % (a, other), "G\t*\t%s-\t%s+\t5\t*" % (other, a),
+                                      "F\t%s\tread9+\t0\t1\t0\t1\t*" % other])
+                seg = "S\t%s\t10\t*" % other
+            ops.append(["collide_add", text, "mention_other_type"])
+            ops.append(["collide_add", seg, "cross_type"])
         elif x < 0.4 and named:
             # collision attempts
             tgt = st_.model.recs[gen.choice(r, named)]
